@@ -37,9 +37,29 @@ pub fn traces(ops_path: &str, impl_path: &str) {
     let mut imp = String::new();
     for version in [Version::V3, Version::V4] {
         let mut comp = build(version);
-        let mut record = |name: &str, f: &mut dyn FnMut(&mut CompoundFile<SharedFile>)| {
+        let mut record = |name: &str, f: &mut (dyn FnMut(&mut CompoundFile<SharedFile>) + Send)| {
             verif_start_recording();
-            f(&mut comp);
+            // a call that acquires the lock while the same thread holds it for writing never returns:
+            // run it on a scoped thread and give up (whole process) after 20 s
+            let finished = std::thread::scope(|sc| {
+                let (tx, rx) = mpsc::channel::<()>();
+                let comp = &mut comp;
+                sc.spawn(move || {
+                    f(comp);
+                    let _ = tx.send(());
+                });
+                match rx.recv_timeout(std::time::Duration::from_secs(20)) {
+                    Ok(()) => true,
+                    Err(_) => {
+                        println!("ORACLE call {} does not return (self-deadlock: it acquires the lock while its own thread holds it)", name);
+                        println!("DEADLOCK {}", name);
+                        use std::io::Write as _;
+                        let _ = std::io::stdout().flush();
+                        std::process::exit(3);
+                    }
+                }
+            });
+            let _ = finished;
             let ev = verif_take_events();
             writeln!(ops, "call {} {}", name, if ev.is_empty() { "-".to_string() } else { render(&ev) }).unwrap();
             match ev.iter().find(|e| e.depth_before != 0) {
@@ -67,6 +87,10 @@ pub fn traces(ops_path: &str, impl_path: &str) {
         record("stream_seek", &mut |c| { let mut s = c.open_stream("/s1").unwrap(); s.seek(SeekFrom::End(-10)).unwrap(); s.seek(SeekFrom::Start(4000)).unwrap(); });
         record("stream_write_flush", &mut |c| { let mut s = c.open_stream("/s2").unwrap(); s.write_all(&pattern(3000, 9)).unwrap(); s.flush().unwrap(); });
         record("stream_write_drop", &mut |c| { let mut s = c.open_stream("/s2").unwrap(); s.seek(SeekFrom::End(0)).unwrap(); s.write_all(&pattern(3000, 9)).unwrap(); });
+        record("stream_write_then_read", &mut |c| { let mut s = c.open_stream("/m/k/big").unwrap(); s.write_all(&pattern(10, 3)).unwrap(); let mut b = [0u8; 100]; let _ = s.read(&mut b).unwrap(); s.write_all(&pattern(5000, 4)).unwrap(); let _ = s.read(&mut b).unwrap(); });
+        record("stream_read_write_fill", &mut |c| { let mut s = c.open_stream("/m/k/big").unwrap(); let mut b = [0u8; 64]; s.read_exact(&mut b).unwrap(); s.write_all(&pattern(70, 5)).unwrap(); let n = s.fill_buf().unwrap().len(); s.consume(n.min(3)); let _ = s.len(); let _ = s.stream_position(); });
+        record("stream_write_seek_read", &mut |c| { let mut s = c.open_stream("/s1").unwrap(); s.write_all(&pattern(300, 6)).unwrap(); s.seek(SeekFrom::Current(-100)).unwrap(); let mut b = [0u8; 50]; let _ = s.read(&mut b).unwrap(); s.seek(SeekFrom::Start(0)).unwrap(); let _ = s.read(&mut b).unwrap(); });
+        record("stream_write_set_len_read", &mut |c| { let mut s = c.open_stream("/s1").unwrap(); s.write_all(&pattern(30, 7)).unwrap(); s.set_len(5000).unwrap(); let mut b = [0u8; 50]; let _ = s.read(&mut b).unwrap(); });
         record("stream_set_len", &mut |c| { let mut s = c.open_stream("/s1").unwrap(); s.set_len(100).unwrap(); s.set_len(6000).unwrap(); });
         record("create_stream", &mut |c| { c.create_stream("/new1").unwrap(); c.create_new_stream("/new2").unwrap(); c.create_stream("/new1").unwrap(); });
         record("create_storage", &mut |c| { c.create_storage("/ns").unwrap(); c.create_storage_all("/ns/a/b").unwrap(); });
